@@ -290,7 +290,7 @@ func (l *lexer) parseG() interface{} {
 		mv := reflect.MakeMap(mt)
 		for l.peek() == "," {
 			l.next()
-			kb, err := hex.DecodeString(l.next())
+			kb, err := keyBytes(l.next())
 			if err != nil {
 				panic(err)
 			}
@@ -313,7 +313,7 @@ func (l *lexer) parseG() interface{} {
 		sv := reflect.New(structTypes[id]).Elem()
 		for l.peek() == "," {
 			l.next()
-			kb, _ := hex.DecodeString(l.next())
+			kb, _ := keyBytes(l.next())
 			l.expect(",")
 			e := l.parseG()
 			if e != nil {
@@ -374,11 +374,26 @@ func scalarTok(v reflect.Value) (string, bool) {
 
 type kv struct{ k, v string }
 
+// keyTok / keyBytes: map and property keys are hex of their bytes, "_" for the empty key.
+func keyTok(k string) string {
+	if k == "" {
+		return "_"
+	}
+	return hex.EncodeToString([]byte(k))
+}
+
+func keyBytes(t string) ([]byte, error) {
+	if t == "_" {
+		return nil, nil
+	}
+	return hex.DecodeString(t)
+}
+
 func joinKVs(kvs []kv) string {
 	sort.Slice(kvs, func(i, j int) bool { return kvs[i].k < kvs[j].k })
 	var b strings.Builder
 	for _, e := range kvs {
-		b.WriteString("," + hex.EncodeToString([]byte(e.k)) + "," + e.v)
+		b.WriteString("," + keyTok(e.k) + "," + e.v)
 	}
 	return b.String()
 }
